@@ -2,9 +2,10 @@
 # Runs the repository's pinned test suite (guard off — no hooks exist) and compares with BASELINE.json.
 # Exit 0 when every stable_pass test passes.
 export GOFLAGS=-mod=mod GOPROXY=off GOSUMDB=off GOTOOLCHAIN=local GOWORK=off
+REPO=${1:-/repo}
 out=$(mktemp)
 for m in . ./libs; do
-  (cd /repo/$m && go test -mod=mod -json -vet=off -count=1 -timeout 25m ./... ) >> "$out" 2>/dev/null
+  (cd $REPO/$m && go test -mod=mod -json -vet=off -count=1 -timeout 25m ./... ) >> "$out" 2>/dev/null
 done
 python3 - "$out" <<'PY'
 import json,sys
